@@ -80,10 +80,15 @@ func evidence(m *lib.Merged) map[string]any {
 func main() {
 	lib.Main(&lib.Harness{
 		Prop: "C09", Level: "model_checking",
-		// One process, in-process workers: the sequential phase does not use the
-		// process-global virtual clock (the hour comes from Config.UnitID, a
-		// per-instance closure), so goroutine workers share one seen-set.
-		Shards: func(string) int { return 1 },
+		// Process shards (lib.BFS deals the first operation of the history to
+		// shards), each with GOMAXPROCS/shards goroutine workers.  The
+		// sequential phase does not use the process-global virtual clock (the
+		// hour comes from Config.UnitID, a per-instance closure), so in-process
+		// workers are safe; but bbolt's mmap/munmap per instance serialises on
+		// the per-process mmap lock, so many processes are measurably faster
+		// than one process with 16 workers even though shards re-explore
+		// states that other shards also reach.
+		Shards: func(string) int { return 16 },
 		Budget: func(tier string) time.Duration {
 			if tier == "thorough" {
 				return 18 * time.Minute
